@@ -2,19 +2,20 @@
 {'harness': 'c20',
  'props': 'Props/C20.v',
  'models': ['Model/Js.v'],
- 'trusted': ['goja (parser, interpreter, ToValue/Export, property semantics of the global object) is '
-             'modelled, not verified: a compiled script is an arbitrary function of the globals it can see; '
-             'the fresh global object enters as a table (own names with configurable flag, inherited names) '
-             'read off the real runtime on every run and checked against rt_wf',
-             'sync.Pool = arbitrary choice among pooled items or New, items may vanish at any time; '
-             'hashicorp LRU transcribed (move-to-front, evict oldest)',
-             'idr.JSONify2 is a function of the node content at the time of the call (the harness computes '
-             'it through a probe custom func)'],
- 'assumptions': ['rt_wf: a configurable own global is writable and no own global name is also inherited '
-                 '(checked on the real table in every case)',
-                 "content_stable_per_id (named guard of node_json_fresh / js_calls_as_alone): a node ID's "
-                 'content does not change while its JSON may be cached; FALSE for ancestors of streamed '
-                 'records - known finding F6, witness node_json_refuted, corpus f6_ancestor_node.json',
-                 'scripts do not assign or declare globals (excluded by the property; by type in the model)',
-                 "the enumeration order of the global object's properties is not observable by scripts (gmap "
-                 'is extensional)']}
+ 'trusted': ['goja (parser, interpreter, ToValue/Export, property semantics of the global object) is modelled, not verified: a compiled script is an '
+             'arbitrary function of the globals it can see; the fresh global object enters as a table (own names with configurable flag, inherited '
+             'names) read off the real runtime on every run and checked against rt_wf',
+             'sync.Pool = arbitrary choice among pooled items or New, items may vanish at any time; hashicorp LRU transcribed (move-to-front, evict '
+             'oldest)',
+             'idr.JSONify2 is a function of the node content at the time of the call (the harness computes it through a probe custom func)'],
+ 'assumptions': ['rt_wf: a configurable own global is writable and no own global name is also inherited (checked on the real table in every case)',
+                 "content_stable_per_id (named guard of node_json_fresh / js_calls_as_alone): a node ID's content does not change while its JSON may "
+                 'be cached; FALSE for ancestors of streamed records - known finding F6, witness node_json_refuted, corpus f6_ancestor_node.json',
+                 "the enumeration order of the global object's properties is not observable by scripts (gmap is extensional)",
+                 'scripts are functions of the visible globals (type [script]); scripts that CREATE global bindings (t = 0, var n = ..., as in the '
+                 "documentation's examples) are outside the property by type: js_global_writers_refuted proves that isolation is false for the "
+                 'generalised type [gscript] (the wipe removes arg names only); run_on_g_pure_script: the generalisation coincides with run_on on '
+                 "the property's class"],
+ 'level_text': 'proof (Coq) of VM isolation, classification and cache soundness over a transcription of javascript.go, compared with the '
+               'implementation on every run; F6 (stale _node for ancestors) is a known finding: node_json_fresh holds under the named guard '
+               'content_stable_per_id, node_json_refuted is the witness'}
